@@ -365,6 +365,258 @@ fn gen_file_store(r: &mut Rng, pool: &[(String, String)], path: &std::path::Path
     }
 }
 
+// ---------------------------------------------------------------------------------------------
+// wire-level logins against the real server binary (connection.rs: handle_startup / authenticate)
+// ---------------------------------------------------------------------------------------------
+
+struct ServerProc {
+    child: std::process::Child,
+    port: u16,
+}
+impl Drop for ServerProc {
+    fn drop(&mut self) {
+        let _ = self.child.kill();
+        let _ = self.child.wait();
+    }
+}
+
+/// `cargo build -p vibesql-server` of the tree under test into a shared target directory (kept
+/// warm between runs), under a file lock; the binary is copied next to the run's scratch files
+fn build_server(scratch: &std::path::Path) -> Result<std::path::PathBuf, String> {
+    use std::os::unix::io::AsRawFd;
+    let target = "/tmp/verif-c29-server-target";
+    let _ = std::fs::create_dir_all(target);
+    let lock = std::fs::File::create(format!("{}.lock", target)).map_err(|e| e.to_string())?;
+    unsafe {
+        libc::flock(lock.as_raw_fd(), libc::LOCK_EX);
+    }
+    let out = std::process::Command::new("cargo")
+        .args(["build", "--manifest-path", "/repo/Cargo.toml", "-p", "vibesql-server", "--offline", "--quiet"])
+        .env("RUSTC_WRAPPER", "")
+        .env("CARGO_TARGET_DIR", target)
+        .env("CARGO_NET_OFFLINE", "true")
+        .output()
+        .map_err(|e| e.to_string())?;
+    let res = if out.status.success() {
+        let dst = scratch.join("vibesql-server");
+        std::fs::copy(format!("{}/debug/vibesql-server", target), &dst).map(|_| dst).map_err(|e| e.to_string())
+    } else {
+        let err = String::from_utf8_lossy(&out.stderr);
+        Err(err.lines().filter(|l| l.starts_with("error")).take(5).collect::<Vec<_>>().join("\n"))
+    };
+    unsafe {
+        libc::flock(lock.as_raw_fd(), libc::LOCK_UN);
+    }
+    res
+}
+
+fn start_server(bin: &std::path::Path, dir: &std::path::Path, method: &str, pwfile: &std::path::Path) -> Result<ServerProc, String> {
+    for _attempt in 0..3 {
+        let port = {
+            let l = std::net::TcpListener::bind("127.0.0.1:0").map_err(|e| e.to_string())?;
+            l.local_addr().map_err(|e| e.to_string())?.port()
+        };
+        let _ = std::fs::create_dir_all(dir);
+        let cfg = format!(
+            "[server]\nhost = \"127.0.0.1\"\nport = {}\nmax_connections = 100\nssl_enabled = false\n\n[auth]\nmethod = \"{}\"\npassword_file = \"{}\"\n\n[logging]\nlevel = \"error\"\n",
+            port,
+            method,
+            pwfile.display()
+        );
+        std::fs::write(dir.join("vibesql-server.toml"), cfg).map_err(|e| e.to_string())?;
+        let log = std::fs::File::create(dir.join("server.log")).map_err(|e| e.to_string())?;
+        let child = std::process::Command::new(bin)
+            .current_dir(dir)
+            .env("RUST_LOG", "error")
+            .env("HOME", dir)
+            .env_remove("XDG_CONFIG_HOME")
+            .stdin(std::process::Stdio::null())
+            .stdout(std::process::Stdio::null())
+            .stderr(log)
+            .spawn()
+            .map_err(|e| e.to_string())?;
+        let mut sp = ServerProc { child, port };
+        for _ in 0..150 {
+            if std::net::TcpStream::connect(("127.0.0.1", port)).is_ok() {
+                return Ok(sp);
+            }
+            if let Ok(Some(_)) = sp.child.try_wait() {
+                break; // exited (port taken?): next attempt
+            }
+            std::thread::sleep(std::time::Duration::from_millis(100));
+        }
+    }
+    Err(format!("server did not start listening; log: {}", std::fs::read_to_string(dir.join("server.log")).unwrap_or_default().chars().take(600).collect::<String>()))
+}
+
+fn read_frame(s: &mut std::net::TcpStream) -> Option<(u8, Vec<u8>)> {
+    use std::io::Read;
+    let mut h = [0u8; 5];
+    s.read_exact(&mut h).ok()?;
+    let len = i32::from_be_bytes([h[1], h[2], h[3], h[4]]);
+    if !(4..=1 << 20).contains(&len) {
+        return None;
+    }
+    let mut body = vec![0u8; len as usize - 4];
+    s.read_exact(&mut body).ok()?;
+    Some((h[0], body))
+}
+
+/// one login attempt as a PostgreSQL client would make it; `secret` maps the salt (md5) to the
+/// content of the PasswordMessage.  Returns (accepted, salt used, what was sent) or an error text.
+fn wire_login(port: u16, user: &str, database: Option<&str>, secret: &dyn Fn(Option<[u8; 4]>) -> String) -> Result<(bool, [u8; 4], String), String> {
+    use std::io::Write;
+    let mut s = std::net::TcpStream::connect(("127.0.0.1", port)).map_err(|e| format!("connect: {}", e))?;
+    let _ = s.set_read_timeout(Some(std::time::Duration::from_secs(20)));
+    let _ = s.set_nodelay(true);
+    let mut body = 196608i32.to_be_bytes().to_vec();
+    for (k, v) in [("user", Some(user)), ("database", database)] {
+        if let Some(v) = v {
+            body.extend_from_slice(k.as_bytes());
+            body.push(0);
+            body.extend_from_slice(v.as_bytes());
+            body.push(0);
+        }
+    }
+    body.push(0);
+    let mut pkt = ((4 + body.len()) as u32).to_be_bytes().to_vec();
+    pkt.extend_from_slice(&body);
+    s.write_all(&pkt).map_err(|e| format!("send startup: {}", e))?;
+    let (ty, b) = read_frame(&mut s).ok_or("no authentication request")?;
+    if ty != b'R' || b.len() < 4 {
+        return Err(format!("unexpected first message {:?}", ty as char));
+    }
+    let code = i32::from_be_bytes([b[0], b[1], b[2], b[3]]);
+    let salt = match code {
+        3 => None,
+        5 if b.len() == 8 => Some([b[4], b[5], b[6], b[7]]),
+        0 => return Ok((true, [0; 4], "(no secret asked)".into())),
+        _ => return Err(format!("unexpected authentication request {}", code)),
+    };
+    let sent = secret(salt);
+    let mut m = vec![b'p'];
+    m.extend_from_slice(&((4 + sent.len() + 1) as u32).to_be_bytes());
+    m.extend_from_slice(sent.as_bytes());
+    m.push(0);
+    s.write_all(&m).map_err(|e| format!("send password: {}", e))?;
+    let accepted = matches!(read_frame(&mut s), Some((b'R', b)) if b == [0, 0, 0, 0]);
+    let _ = s.write_all(&[b'X', 0, 0, 0, 4]);
+    Ok((accepted, salt.unwrap_or([0; 4]), sent))
+}
+
+fn wire_family(cx: &mut Ctx, args: &Args, rng: &mut Rng) {
+    let bin = match build_server(&args.scratch) {
+        Ok(b) => b,
+        Err(e) => {
+            cx.rep.fail(FailKind::Oracle, None, "the server binary of the tree under test does not build (wire-level logins impossible)", &e);
+            return;
+        }
+    };
+    // accounts: two Argon2 (pre-hashed lines, so the stored strings are known), three {MD5}; an
+    // account exists for each database name used below ("shop", "store")
+    let mut users: Vec<User> = vec![];
+    for (name, pw, md5) in [("alice", "alicepw", false), ("store", "storepw", false), ("bob", "bobpw", true), ("shop", "shoppw", true), ("dave", "", true)] {
+        if md5 {
+            users.push(User { name: name.into(), stored: format!("{{MD5}}{}", pw), entry: Entry::Md5(pw.into()) });
+        } else {
+            match hash_password_argon2(pw) {
+                Ok(h) => users.push(User { name: name.into(), stored: h, entry: Entry::Argon(pw.into()) }),
+                Err(e) => cx.rep.fail(FailKind::Oracle, None, "hash_password_argon2 failed", &e.to_string()),
+            }
+        }
+    }
+    let pwfile = args.scratch.join("passwd");
+    let _ = std::fs::write(&pwfile, users.iter().map(|u| format!("{}:{}\n", u.name, u.stored)).collect::<String>());
+    for method in ["password", "md5"] {
+        let dir = args.scratch.join(format!("srv-{}", method));
+        let srv = match start_server(&bin, &dir, method, &pwfile) {
+            Ok(s) => s,
+            Err(e) => {
+                cx.rep.fail(FailKind::Oracle, None, "the server does not start with a generated configuration and password file", &format!("method {}: {}", method, e));
+                continue;
+            }
+        };
+        let names = ["alice", "store", "bob", "shop", "dave", "mallory"];
+        for user in names {
+            let own = users.iter().find(|u| u.name == user);
+            let own_pw = match own.map(|u| &u.entry) {
+                Some(Entry::Argon(p)) | Some(Entry::Md5(p)) => p.clone(),
+                _ => "guess".to_string(),
+            };
+            for database in [None, Some(user), Some("shop"), Some("store"), Some("alice"), Some("nosuchdb")] {
+                // presented passwords: the user's own, the one of the account named like the database, wrong, empty
+                let db_pw = database.and_then(|d| users.iter().find(|u| u.name == d)).map(|u| match &u.entry {
+                    Entry::Argon(p) | Entry::Md5(p) => p.clone(),
+                    _ => String::new(),
+                });
+                let mut presented: Vec<(String, &str)> = vec![(own_pw.clone(), "own_password"), ("wrong".into(), "wrong_password")];
+                if let Some(p) = db_pw {
+                    if p != own_pw {
+                        presented.push((p, "password_of_account_named_like_database"));
+                    }
+                }
+                if rng.chance(1, 3) {
+                    presented.push(("".into(), "empty_password"));
+                }
+                for (pw, class) in presented {
+                    // md5: the client answers with "md5" + digest(presented password, USER it logs in as, salt)
+                    let u2 = user.to_string();
+                    let pw2 = pw.clone();
+                    let is_md5 = method == "md5";
+                    let mk = move |salt: Option<[u8; 4]>| -> String {
+                        match (is_md5, salt) {
+                            (true, Some(s)) => format!("md5{}", pg_digest(&pw2, &u2, &s)),
+                            _ => pw2.clone(),
+                        }
+                    };
+                    let res = wire_login(srv.port, user, database, &mk);
+                    let id = format!("login {} user={} database={:?} presented={:?}({})", method, user, database, pw, class);
+                    cx.rep.case(&id, own.is_some());
+                    cx.rep.count(&format!("wire_{}_{}", method, class));
+                    cx.rep.count(&format!("wire_database_{}", match database { None => "absent", Some(d) if d == user => "same_as_user", Some("nosuchdb") => "no_such_account", _ => "other_account" }));
+                    let (accepted, salt, sent) = match res {
+                        Ok(x) => x,
+                        Err(e) => {
+                            cx.rep.fail(FailKind::Oracle, None, "wire-level login: the server did not follow the authentication exchange", &format!("{}\n{}", id, e));
+                            continue;
+                        }
+                    };
+                    cx.rep.count(if accepted { "wire_accepted" } else { "wire_rejected" });
+                    // oracle: the decision is about USER's entry and the password presented — the database is irrelevant
+                    let want = match (method, own.map(|u| &u.entry)) {
+                        ("password", Some(Entry::Argon(p))) => *p == pw,
+                        ("md5", Some(Entry::Md5(p))) => *p == pw,
+                        _ => false,
+                    };
+                    if accepted != want {
+                        cx.rep.fail(
+                            FailKind::Oracle,
+                            None,
+                            if accepted { "wire-level login accepted without the password of the user logging in" } else { "wire-level login with the user's own password rejected" },
+                            &format!("{}\npassword file:\n{}sent in PasswordMessage: {:?} (salt {:?})\nserver: {}  expected: {}", id, users.iter().map(|u| format!("{}:{}\n", u.name, u.stored)).collect::<String>(), sent, salt, if accepted { "AuthenticationOk" } else { "rejected" }, want),
+                        );
+                    }
+                    // correspondence: the model's login step (lookup by user)
+                    let (po, vo) = match own {
+                        Some(u) => match PasswordHash::new(&u.stored) {
+                            Ok(h) => (true, method == "password" && Argon2::default().verify_password(sent.as_bytes(), &h).is_ok()),
+                            Err(_) => (false, false),
+                        },
+                        None => (false, false),
+                    };
+                    let req = format!("login {} {} {} {} {} {} {} {}", method, store_sx(&users), hx(user.as_bytes()), hx(database.unwrap_or(user).as_bytes()), hx(sent.as_bytes()), hx(&salt), po as u8, vo as u8);
+                    let reply = cx.model.ask(&req);
+                    cx.rep.traces_validated += 1;
+                    if reply != if accepted { "1" } else { "0" } {
+                        cx.rep.fail(FailKind::ModelDiff, None, "wire-level login: the server's decision differs from the model's login step (lookup by user)", &format!("{}\n{}\nserver: {}\nmodel: {}", id, req, accepted, reply));
+                    }
+                }
+            }
+        }
+        drop(srv);
+    }
+}
+
 fn build(users: &[User]) -> PasswordStore {
     let mut s = PasswordStore::new();
     for u in users {
@@ -470,7 +722,7 @@ fn main() {
     }
 
     // ---- generated stores: every storage route × legitimate, near-miss and attacker responses ----
-    let rounds = args.n(150, 3000);
+    let rounds = args.n(80, 3000);
     let others = other_entries();
     for i in 0..rounds {
         let mut r = rng.fork();
@@ -545,6 +797,9 @@ fn main() {
             }
         }
     }
+
+    // ---- wire-level logins against the real server (user ≠ database, both methods) ----
+    wire_family(&mut cx, &args, &mut rng);
 
     std::process::exit(cx.rep.finish());
 }
